@@ -81,6 +81,12 @@ def Tree.get (A : HashAlg H) : Tree H → Path → H
   | .bin l r, k => if k.headD false then r.get A k.tail else l.get A k.tail
   | .edge p c, k => if p.isPrefixOf k then c.get A (k.drop p.length) else A.zero
 
+/-- the key is in the tree: every edge on the way matches -/
+def Tree.has : Tree H → Path → Bool
+  | .leaf _, _ => true
+  | .bin l r, k => if k.headD false then r.has k.tail else l.has k.tail
+  | .edge p c, k => p.isPrefixOf k && c.has (k.drop p.length)
+
 /-- A trie is empty (`none`, root hash zero) or a tree. -/
 abbrev Trie (H : Type) := Option (Tree H)
 
